@@ -129,7 +129,7 @@ def cases(draw):
         path = _join(d, stem + seeds.EXT[lang])  # the same base name may occur in several directories (mod.py, index.ts ...)
         if any(f["p"] == path for f in files):
             path = _join(d, f"{stem}{i}{seeds.EXT[lang]}")
-        files.append({"p": path, "lang": lang, "snips": chosen, "header": draw(st.booleans())})
+        files.append({"p": path, "lang": lang, "snips": chosen, "header": draw(st.booleans()), "trio": draw(st.integers(0, 2)) == 0})
     if "rs" in own_langs and draw(st.booleans()):
         # Rust files whose verdicts depend on their OWN `use` lines: a file that imports tokio's fs (its fs:: calls are
         # fine), a file without any `use` whose fs:: call means std::fs, and a second importing file; every file must be
@@ -193,6 +193,16 @@ def render(f) -> str:
         texts = list(fs.values())
         return "\n\n".join(texts) if f["k"] == -1 else texts[f["k"]]
     text, _, _ = seeds.compose(lang, [seeds.seed(fam, lang, u, var) for fam, u, var in f["snips"]], header=f["header"])
+    if f.get("trio"):
+        # several findings on ONE line that agree in rule and message (columns differ in Python, not in ts/js/rs): the CLI
+        # and the library must both report every one of them
+        m3 = 2600 + f["snips"][0][1]
+        if lang == "py":
+            text += f"\n\ndef trio_{m3}(a):\n    return [a, {m3}, {m3}, {m3}]\n"
+        elif lang == "rs":
+            text += f"\n\nfn trio_{m3}(a: i64, b: Option<i64>, c: Option<i64>) -> Vec<i64> {{\n    vec![a, {m3}, {m3}, b.unwrap() + c.unwrap()]\n}}\n"
+        else:
+            text += f"\n\nfunction trio_{m3}(a) {{\n    return [a, {m3}, {m3}, {m3}];\n}}\n"
     return text
 
 
